@@ -300,7 +300,7 @@ def c16_check(tier, replay=None):
     if serial_bad:
         idx = serial_bad[0]
         scen = scenario_json(native, ["--seed", str(sd), "--index", str(idx), "--class",
-                                      ["race", "general", "pool", "late", "general", "deep"][idx % 6]])
+                                      ["race", "general", "pool", "late", "shared", "deep"][idx % 6]])
         small = minimise_serial(native, scen, time.time() + 60)
         _, outs = serial_differs(native, small)
         rep.violation("serial:thread-identity", {"property": "C16", "engine": "native-serial", "features": "sync",
@@ -314,23 +314,25 @@ def c16_check(tier, replay=None):
     # (b) Miri
     NOWM = " -Zmiri-disable-weak-memory-emulation"
     if tier == "quick":
-        plan = [("sync", "race", 0, (0, 6), "0.1"),
-                ("sync", "late", 1, (0, 6), "0.1" + NOWM),
+        plan = [("sync", "race", 0, (0, 5), "0.1"),
+                ("sync", "late", 1, (0, 4), "0.1" + NOWM),
                 # logic races behind locks need a preemption inside a short window and then a
                 # long undisturbed run of another thread: low rate, many seeds
-                ("sync", "pool", 2, (0, 24), "0.02"),
-                ("sync", "general", 3, (0, 6), "0.1"),
+                ("sync", "pool", 2, (0, 22), "0.02"),
+                ("sync", "general", 3, (0, 5), "0.1"),
+                # expressions compiled once and searched by every thread, in the same order, dozens of times
+                ("sync", "shared", 7, (0, 6), "0.1"),
                 # five threads deep inside nested calls / nested sort_by at the same time
-                ("sync", "deep", 5, (0, 6), "0.1"),
+                ("sync", "deep", 5, (0, 5), "0.1"),
                 # under sync+specialized a shared input value really is shared with the
                 # interpreter (identity conversion): refcount traffic and aliasing across threads
-                ("sync,specialized", "race", 4, (0, 4), "0.3"),
-                ("sync,specialized", "general", 6, (0, 6), "0.05")]
+                ("sync,specialized", "race", 4, (0, 3), "0.3"),
+                ("sync,specialized", "general", 6, (0, 4), "0.05")]
     else:
         plan = []
-        classes = ["race", "late", "pool", "general", "deep"]
-        for i in range(15):
-            cls = classes[i % 5]
+        classes = ["race", "late", "pool", "general", "deep", "shared"]
+        for i in range(18):
+            cls = classes[i % 6]
             for feat in ("sync", "sync,specialized"):
                 for rate in ("0.02", "0.1" + NOWM, "0.5"):
                     plan.append((feat, cls, 100 + i, (0, 24), rate))
